@@ -153,6 +153,19 @@ func loadProg(root string, bc BuildConfig) (*Prog, error) {
 		}
 		return a.String() < b.String()
 	})
+	if err := P.inlineUnknownHelpers(); err != nil {
+		return nil, err
+	}
+	if want := os.Getenv("SLUGCHECK_DUMPFN"); want != "" {
+		for _, l := range inlineLog {
+			fmt.Fprintln(os.Stderr, "inline:", l)
+		}
+		for _, fn := range P.Funcs {
+			if strings.Contains(P.FuncName(fn), want) {
+				fn.WriteTo(os.Stderr)
+			}
+		}
+	}
 	return P, nil
 }
 
